@@ -120,14 +120,22 @@ def run_c17(tier):
                         chk.property_violation(tcase, {'what': 'encodings differ between the front-ends', 'value': v, 'prophy': ea.hex(), 'isar': eb.hex()})
         # (b) <dimension> forms vs the model of make_struct_members
         reqs, rows = [], []
+        position_free = {}
         for _ in range(chk.scale(10, 60)):
             name, typ, forms = dimension_forms(chk.rng)
             for dim_xml, dim_req, optional in forms:
-                for message in (False, True):
+                for message, trailing in ((False, False), (True, False), (False, True), (True, True)):
                     tag = 'message' if message else 'struct'
-                    xml = '<x><%s name="T"><member name="cnt" type="u32"/>%s</%s></x>' % (tag, member_xml(name, typ, dim_xml or None, optional), tag)
+                    tail = '<member name="tail" type="u16"/>' if trailing else ''
+                    xml = '<x><%s name="T"><member name="cnt" type="u32"/>%s%s</%s></x>' % (tag, member_xml(name, typ, dim_xml or None, optional), tail, tag)
                     nodes = IsarParser().parse(xml, '', None)
-                    impl = [pm_of_member(m) for m in nodes[0].members[1:]]
+                    impl = [pm_of_member(m) for m in (nodes[0].members[1:-1] if trailing else nodes[0].members[1:])]
+                    # a member description denotes one layout, wherever the member stands in its struct / message
+                    seen = position_free.setdefault((xml.replace(tail, '') if tail else xml), (impl, xml))
+                    if seen[0] != impl:
+                        chk.property_violation({'xml': xml, 'other_xml': seen[1]},
+                                               {'what': 'the same isar member description yields different members depending on its position',
+                                                'here': impl, 'there': seen[0]})
                     rows.append(({'xml': xml}, impl))
                     req = {'op': 'isar_members', 'name': name, 'type': typ, 'optional': optional, 'message': message}
                     if dim_req is not None:
